@@ -137,6 +137,8 @@ def read_routines(
     routine_infos = []
     named_coroutines = []
     routine_ops: MutableSequence[MutableSequence[SsbOperation]] = []
+    # The offset of an operation is its index in the list of all operations of this document.
+    counter.count = 0
     for r in routines:
         if "ops" not in r:
             raise ValueError("Ops for a routine not set.")
